@@ -1,0 +1,16 @@
+//go:build verif
+// +build verif
+
+package astits
+
+// Add-only exports used by the verification harness in /verif. This file is
+// compiled only with -tags verif; it contains wrappers and no logic.
+
+// VerifComputeCRC32 exposes computeCRC32
+func VerifComputeCRC32(bs []byte) uint32 { return computeCRC32(bs) }
+
+// VerifUpdateCRC32 exposes updateCRC32
+func VerifUpdateCRC32(crc32 uint32, bs []byte) uint32 { return updateCRC32(crc32, bs) }
+
+// VerifCRC32Table returns a copy of tableCRC32
+func VerifCRC32Table() [256]uint32 { return tableCRC32 }
